@@ -81,6 +81,9 @@ fn fnv(s: &str) -> u64 {
 thread_local! {
     static COUNTDOWN: Cell<i64> = const { Cell::new(-1) };
     static TICKS: Cell<u64> = const { Cell::new(0) };
+    // harness state of the simulated caller: does this call reuse the thread's long-lived Options object?
+    static REUSE_OPTIONS: Cell<bool> = const { Cell::new(false) };
+    static PERSISTENT_OPTIONS: std::cell::RefCell<Option<Options<'static>>> = const { std::cell::RefCell::new(None) };
 }
 const INJECTED: &str = "injected fault in caller-supplied code";
 fn tick() {
@@ -173,7 +176,8 @@ const PROPS: [&str; 9] = ["C03", "C05", "C07", "C10", "C11", "C12", "C17", "C18"
 
 // ===========================================================================
 // Calls.
-const INDENTS: [&str; 5] = ["", "  ", "> ", "* ", "\u{3000}-"];
+// pairs of equal byte length and different display width are deliberate
+const INDENTS: [&str; 7] = ["", "  ", "> ", "* ", "\u{3000}-", "    ", "\u{2022} "];
 const WIDTHS: [usize; 10] = [0, 1, 2, 3, 5, 8, 13, 20, 40, usize::MAX];
 
 #[derive(Clone, Debug, PartialEq, Eq, PartialOrd, Ord)]
@@ -198,7 +202,46 @@ impl Opt {
             "\n"
         }
     }
+    /// The `Options` value the caller passes. Usually built afresh; when the
+    /// harness flag REUSE_OPTIONS is set, the calling thread keeps ONE `Options`
+    /// object for its lifetime — first created through the builder methods, later
+    /// updated by assigning every public field — as an application that keeps its
+    /// options around and tweaks them would. Field for field the value is the same.
     fn build(&self) -> Options<'static> {
+        if REUSE_OPTIONS.with(|r| r.get()) {
+            return PERSISTENT_OPTIONS.with(|p| {
+                let mut slot = p.borrow_mut();
+                let fresh = self.build_fresh();
+                match slot.as_mut() {
+                    None => {
+                        let o = Options::new(fresh.width)
+                            .line_ending(fresh.line_ending)
+                            .initial_indent(fresh.initial_indent)
+                            .subsequent_indent(fresh.subsequent_indent)
+                            .break_words(fresh.break_words)
+                            .word_separator(fresh.word_separator)
+                            .wrap_algorithm(fresh.wrap_algorithm)
+                            .word_splitter(fresh.word_splitter);
+                        *slot = Some(o.clone());
+                        o
+                    }
+                    Some(o) => {
+                        o.width = fresh.width;
+                        o.line_ending = fresh.line_ending;
+                        o.initial_indent = fresh.initial_indent;
+                        o.subsequent_indent = fresh.subsequent_indent;
+                        o.break_words = fresh.break_words;
+                        o.wrap_algorithm = fresh.wrap_algorithm;
+                        o.word_separator = fresh.word_separator;
+                        o.word_splitter = fresh.word_splitter;
+                        o.clone()
+                    }
+                }
+            });
+        }
+        self.build_fresh()
+    }
+    fn build_fresh(&self) -> Options<'static> {
         let mut o = Options::new(self.width);
         o.wrap_algorithm = match self.alg {
             0 => WrapAlgorithm::FirstFit,
@@ -248,10 +291,11 @@ enum Kind {
     Dedent,
     WrapColumns,
     Fragments,
+    OptimalFit4,
     CustomFragments,
     AlgWrap,
 }
-const KINDS: [Kind; 14] = [
+const KINDS: [Kind; 15] = [
     Kind::DisplayWidth,
     Kind::FindWords,
     Kind::Words,
@@ -264,6 +308,7 @@ const KINDS: [Kind; 14] = [
     Kind::Dedent,
     Kind::WrapColumns,
     Kind::Fragments,
+    Kind::OptimalFit4,
     Kind::CustomFragments,
     Kind::AlgWrap,
 ];
@@ -354,14 +399,37 @@ fn all_paragraphs_fit(text: &str, o: &Opt) -> bool {
     true
 }
 
-/// The documented cost of an arrangement (Penalties::new(): per line 1000;
-/// overflow x 2500; squared gap on all but the last line; 25 for a short
-/// one-fragment last line; 25 for a line ending in a penalty).  Used only to turn
+/// The documented cost of an arrangement under penalties `p` (per-line penalty;
+/// linear overflow; squared gap on all but the last line; short one-fragment last
+/// line; a line ending in a penalty).  Used only to turn
 /// an optimal-fit arrangement into the number C03 pins; never compared against a
 /// minimum computed here.
+/// C03 quantifies over "default and arbitrary non-negative penalties": the call's
+/// `bw`/`crlf` bits (otherwise unused by the fragment-level call) select one of four.
 #[cfg(feature = "full")]
-fn arrangement_cost(lines: &[&[Word<'_>]], line_widths: &[f64]) -> f64 {
-    let p = Penalties::new();
+fn penalties_of(o: &Opt) -> Penalties {
+    let mut p = Penalties::new();
+    match (o.bw, o.crlf) {
+        (false, false) => {}
+        (true, false) => {
+            p.nline_penalty = 0;
+            p.short_last_line_penalty = 0;
+        }
+        (false, true) => {
+            p.overflow_penalty = 1;
+            p.hyphen_penalty = 500;
+        }
+        (true, true) => {
+            p.nline_penalty = 10_000;
+            p.overflow_penalty = 10;
+            p.short_last_line_fraction = 2;
+            p.short_last_line_penalty = 3_000;
+        }
+    }
+    p
+}
+#[cfg(feature = "full")]
+fn arrangement_cost(lines: &[&[Word<'_>]], line_widths: &[f64], p: &Penalties) -> f64 {
     let mut cost = 0.0;
     let n = lines.len();
     for (k, line) in lines.iter().enumerate() {
@@ -493,9 +561,10 @@ fn execute(c: &Call, buf: &str, inplace: Option<&mut String>) -> Outcome {
             let of = {
                 // C03's domain: integer widths, at most two distinct line widths, default penalties
                 let lws2 = [(w / 2.0).floor(), w];
-                let of2 = match wrap_optimal_fit(&words, &lws2, &Penalties::new()) {
+                let pen = penalties_of(&c.opt);
+                let of2 = match wrap_optimal_fit(&words, &lws2, &pen) {
                     Ok(ls) => {
-                        let cost = arrangement_cost(&ls, &lws2);
+                        let cost = arrangement_cost(&ls, &lws2, &pen);
                         if c.opt.sep < 2 {
                             obs.push(("C03", format!("cost={cost:?}")));
                         }
@@ -503,13 +572,27 @@ fn execute(c: &Call, buf: &str, inplace: Option<&mut String>) -> Outcome {
                     }
                     Err(_) => "overflow".into(),
                 };
-                let of4 = match wrap_optimal_fit(&words, &lws4, &Penalties::new()) {
-                    Ok(ls) => shape(&ls),
-                    Err(_) => "overflow".into(),
-                };
-                format!("{of2} of4[{of4}]")
+                of2
             };
             format!("ff4[{ff}] of2[{of}]")
+        }
+        Kind::OptimalFit4 => {
+            // optimal-fit on four line widths, on its own: one optimal-fit call per
+            // step, so that no second call inside the same step tidies up after the first
+            let words: Vec<Word<'_>> = o.word_separator.find_words(buf).collect();
+            let w = c.opt.width.min(1 << 20) as f64;
+            let lws4 = [w / 2.0, w / 3.0, w, w * 0.75];
+            #[cfg(not(feature = "full"))]
+            let of4 = {
+                let _ = (&words, &lws4);
+                String::from("n/a")
+            };
+            #[cfg(feature = "full")]
+            let of4 = match wrap_optimal_fit(&words, &lws4, &penalties_of(&c.opt)) {
+                Ok(ls) => shape(&ls),
+                Err(_) => "overflow".into(),
+            };
+            format!("of4[{of4}]")
         }
         Kind::CustomFragments => {
             // fragment sizes come from the text's words; `ii` scales them, `si` scales the
@@ -801,7 +884,8 @@ fn gen_call_in_domain(rng: &mut Rng, prop: &str, texts: &[String]) -> Call {
 enum Step {
     /// worker makes the call; `storage` 0..=3: the worker's own reusable buffer
     /// (same address, new contents); 100: the run-wide shared copy of the text
-    /// (same address on every thread); 101: a fresh allocation.
+    /// (same address on every thread); 101: a fresh allocation. +1000: the call is
+    /// made with the thread's long-lived `Options` object (see `Opt::build`).
     Call { worker: usize, storage: usize, call: Call },
     /// worker exits (its thread-locals are destroyed) and is respawned.
     Restart { worker: usize },
@@ -878,6 +962,8 @@ fn gen_steps(rng: &mut Rng, prop: &str, texts: &[String], workers: usize, len: u
             6 => 100,
             _ => 101,
         };
+        // one call in five is made with the thread's long-lived Options object (+1000)
+        let storage = if rng.chance(1, 5) { storage + 1000 } else { storage };
         last_worker = worker;
         last_armed = call.fault_at >= 0;
         steps.push(Step::Call { worker, storage, call });
@@ -930,6 +1016,8 @@ fn spawn_worker(shared: Arc<Vec<String>>) -> Worker {
                 Cmd::Quit => break,
                 Cmd::Run { storage, call } => {
                     let before = TICKS.with(|t| t.get());
+                    REUSE_OPTIONS.with(|r| r.set(storage >= 1000));
+                    let storage = storage % 1000;
                     let out = match storage {
                         0..=3 => {
                             let b = &mut bufs[storage];
@@ -943,6 +1031,7 @@ fn spawn_worker(shared: Arc<Vec<String>>) -> Worker {
                             run_call(&call, &mut fresh)
                         }
                     };
+                    REUSE_OPTIONS.with(|r| r.set(false));
                     let ticks = TICKS.with(|t| t.get()) - before;
                     if rtx.send((out, ticks)).is_err() {
                         break;
@@ -969,6 +1058,7 @@ struct Stats {
     keys_before_and_after_fault: u64,
     buffer_reuses_new_contents: u64,
     shared_buffer_calls: u64,
+    calls_with_reused_options_object: u64,
     worker_restarts: u64,
     faults_armed: u64,
     faults_fired: u64,
@@ -1028,19 +1118,26 @@ fn execute_run(
             }
             Step::Call { worker, storage, call } => {
                 let w = *worker % workers;
-                let storage = if *storage == 100 && call.kind == Kind::FillInplace { 101 } else { *storage };
-                pool[w].tx.send(Cmd::Run { storage, call: call.clone() }).expect("worker alive");
+                // storage code: place of the text (0..=3, 100, 101), +1000 = the thread's long-lived Options object
+                let reuse_opts = *storage >= 1000;
+                let place = *storage % 1000;
+                let place = if place == 100 && call.kind == Kind::FillInplace { 101 } else { place };
+                pool[w].tx.send(Cmd::Run { storage: place + if reuse_opts { 1000 } else { 0 }, call: call.clone() }).expect("worker alive");
+                if reuse_opts {
+                    stats.calls_with_reused_options_object += 1;
+                }
+                let storage = place + if reuse_opts { 1000 } else { 0 };
                 let (out, ticks) = pool[w].rx.recv().expect("worker replied");
                 stats.calls += 1;
                 stats.callback_invocations += ticks;
-                if storage < 4 {
-                    if let Some(prev) = last_in_buf.insert((w, storage), call.text) {
+                if place < 4 {
+                    if let Some(prev) = last_in_buf.insert((w, place), call.text) {
                         if texts[prev] != texts[call.text] {
                             stats.buffer_reuses_new_contents += 1;
                         }
                     }
                 }
-                if storage == 100 {
+                if place == 100 {
                     stats.shared_buffer_calls += 1;
                 }
                 let was_faulted = faulted[w];
@@ -1173,25 +1270,79 @@ fn cold_pass(prop: &str, plans: &[RunPlan], window: Option<(String, usize)>) -> 
 // computed before any other thread existed.
 fn parallel_pass(prop: &str, seed: u64) -> Result<String, String> {
     let mut rng = Rng::new(seed ^ fnv(prop) ^ 0x5eed);
-    let n_texts = 2 + rng.below(2);
+    // Words for the race workload come from a WIDE alphabet: one to two characters
+    // drawn at random from blocks of different display width (0, 1 and 2 columns).
+    // Many distinct characters and short words put pressure on any table a call
+    // might share with an overlapping call — whatever its size or hash, collisions
+    // arrive by birthday — and short words (<= 7 bytes) also fit small-key memos.
+    fn wide_char(rng: &mut Rng) -> char {
+        let (lo, hi) = match rng.below(10) {
+            0 => (0x00C0, 0x024F), // Latin-1 supplement / extended: 1 column
+            1 => (0x0370, 0x03FF), // Greek: 1
+            2 => (0x0400, 0x04FF), // Cyrillic: 1
+            3 => (0x0300, 0x036F), // combining marks: 0
+            4 | 5 => (0x4E00, 0x9FFF), // CJK ideographs: 2
+            6 => (0xAC00, 0xD7A3), // Hangul syllables: 2
+            7 => (0x3041, 0x30FF), // kana: 2
+            8 => (0xFF01, 0xFF5E), // fullwidth forms: 2
+            _ => (0x1F600, 0x1F64F), // emoticons: 2
+        };
+        char::from_u32(lo + rng.below((hi - lo + 1) as usize) as u32).unwrap_or('\u{e9}')
+    }
+    fn wide_word(rng: &mut Rng) -> String {
+        let mut w = String::new();
+        for _ in 0..(1 + rng.below(2)) {
+            w.push(wide_char(rng));
+        }
+        if rng.chance(1, 4) {
+            w.insert(0, (b'a' + rng.below(26) as u8) as char);
+        }
+        w
+    }
+    let n_texts = 3 + rng.below(2);
+    // a text of 66-80 short lines (state kept per line beyond a fixed-size block), where lines are cheap
+    let long_text = matches!(prop, "C18" | "C19" | "C10") && rng.chance(1, 3);
     let texts: Arc<Vec<String>> = Arc::new(
         (0..n_texts)
-            .map(|_| {
+            .map(|t| {
                 // short texts: an interpreter executes every instruction of every call
                 let mut s = String::new();
-                for i in 0..(1 + rng.below(4)) {
+                if long_text && t == 0 {
+                    for i in 0..(66 + rng.below(15)) {
+                        s.push_str(["  a", "    b", "  ", "\t", "  c d", ""][(i + rng.below(2)) % 6]);
+                        s.push('\n');
+                    }
+                    return s;
+                }
+                // an interpreter executes every instruction of every call: long texts only
+                // where a call is cheap (width, indentation, in-place fill)
+                // (size thresholds — "only texts over 64 bytes", "only 8 or more fragments" — are
+                // a favourite way for shared state to dodge small inputs: every other workload is long)
+                let n_words = if matches!(prop, "C10" | "C18" | "C19") {
+                    8 + rng.below(17)
+                } else if seed % 2 == 1 {
+                    10 + rng.below(8)
+                } else {
+                    3 + rng.below(4)
+                };
+                for i in 0..n_words {
                     if i > 0 {
                         s.push_str(SEPS[rng.below(SEPS.len())]);
                     }
-                    s.push_str(VOCAB[rng.below(VOCAB.len())]);
+                    if rng.chance(5, 6) {
+                        s.push_str(&wide_word(&mut rng));
+                    } else {
+                        s.push_str(VOCAB[rng.below(VOCAB.len())]);
+                    }
                 }
                 s
             })
             .collect(),
     );
     let pool: Vec<Call> = (0..3)
-        .map(|_| {
+        .map(|k| {
             let mut c = gen_call_in_domain(&mut rng, prop, &texts);
+            c.text = k % texts.len(); // distinct texts: overlapping calls work on different contents
             if c.kind == Kind::FillInplace || c.opt.width > 40 {
                 c.opt.width = [1, 3, 8, 20][rng.below(4)];
             }
@@ -1209,7 +1360,9 @@ fn parallel_pass(prop: &str, seed: u64) -> Result<String, String> {
     };
     let reference: Vec<Option<String>> = pool.iter().map(|c| run_one(c, &texts)).collect();
     let threads = 2 + rng.below(2);
-    let plans: Vec<Vec<usize>> = (0..threads).map(|_| (0..4).map(|_| rng.below(pool.len())).collect()).collect();
+    // thread t starts with call t (so the first, cache-filling calls of different
+    // threads differ and overlap), then draws
+    let plans: Vec<Vec<usize>> = (0..threads).map(|t| (0..5).map(|k| if k == 0 { t % pool.len() } else { rng.below(pool.len()) }).collect()).collect();
     let pool = Arc::new(pool);
     let barrier = Arc::new(std::sync::Barrier::new(threads));
     let handles: Vec<_> = plans
@@ -1344,12 +1497,12 @@ fn main() {
             }
             println!(
                 "STATS property {prop} seed {seed} runs {} calls {} in_domain_executions {} distinct_keys {} keys_executed_2plus {} keys_in_2plus_contexts {} \
-                 keys_on_2plus_threads {} keys_in_2plus_storages {} keys_before_and_after_fault {} buffer_reuses_new_contents {} shared_buffer_calls {} \
+                 keys_on_2plus_threads {} keys_in_2plus_storages {} keys_before_and_after_fault {} buffer_reuses_new_contents {} shared_buffer_calls {} calls_with_reused_options_object {} \
                  worker_restarts {} faults_armed {} faults_fired {} calls_after_fault_same_thread {} callback_invocations {} distinct_call_orders {} \
                  library_internal_scheduling_points 0",
                 stats.runs, stats.calls, stats.in_domain_executions, stats.distinct_keys, stats.keys_executed_2plus, stats.keys_in_2plus_contexts,
                 stats.keys_on_2plus_threads, stats.keys_in_2plus_storages, stats.keys_before_and_after_fault, stats.buffer_reuses_new_contents,
-                stats.shared_buffer_calls, stats.worker_restarts, stats.faults_armed, stats.faults_fired, stats.calls_after_fault_same_thread,
+                stats.shared_buffer_calls, stats.calls_with_reused_options_object, stats.worker_restarts, stats.faults_armed, stats.faults_fired, stats.calls_after_fault_same_thread,
                 stats.callback_invocations, stats.distinct_call_orders
             );
             // a few keys that were compared across contexts, written out
